@@ -8,6 +8,8 @@
 //!       loaded.json (dump of Font::load); *_error.txt where a step failed.
 //!   harness c05 --out DIR --font FILE
 //!       the same for the single abstract font stored in FILE (case_0).
+//!   harness c05 --out DIR --fonts FILE
+//!       the same for every font of the JSON array stored in FILE (case_0 ...).
 //!   harness c05 --load DIR
 //!       for every DIR/case_*/w.ufo: loaded.json = dump of Font::load (or load_error.txt).
 //!   harness c05 --dump UFO --to FILE
@@ -119,7 +121,12 @@ pub fn main(a: &Args) {
     let given: Option<J> = opt(a, "--font").map(|f| {
         serde_json::from_str(&std::fs::read_to_string(f).expect("cannot read --font file")).expect("--font file is not JSON")
     });
-    let count: u64 = if given.is_some() { 1 } else { opt(a, "--count").and_then(|s| s.parse().ok()).unwrap_or(if a.thorough() { 2000 } else { 200 }) };
+    // --fonts FILE: a JSON array of abstract fonts, one case each
+    let given_many: Option<Vec<J>> = opt(a, "--fonts").map(|f| {
+        let j: J = serde_json::from_str(&std::fs::read_to_string(f).expect("cannot read --fonts file")).expect("--fonts file is not JSON");
+        j.as_array().expect("--fonts file must hold an array").clone()
+    });
+    let count: u64 = if let Some(v) = &given_many { v.len() as u64 } else if given.is_some() { 1 } else { opt(a, "--count").and_then(|s| s.parse().ok()).unwrap_or(if a.thorough() { 2000 } else { 200 }) };
     let fixed_size: Option<u32> = opt(a, "--size").and_then(|s| s.parse().ok());
     let classes: Vec<String> = opt(a, "--gen").map(|s| s.split(',').map(|x| x.to_string()).collect()).unwrap_or_default();
     let gopts = fontio_gen::GenOpts::from_names(&classes);
@@ -131,14 +138,28 @@ pub fn main(a: &Args) {
         let dir = a.out.join(format!("case_{}", k));
         std::fs::create_dir_all(&dir).unwrap();
         let size = fixed_size.unwrap_or_else(|| rng.below(3) as u32);
-        let font_json = match &given {
-            Some(j) => j.clone(),
-            None => fontio_gen::gen_font_with(&mut rng, size, &gopts),
+        let font_json = match (&given_many, &given) {
+            (Some(v), _) => v[k as usize].clone(),
+            (None, Some(j)) => j.clone(),
+            (None, None) => fontio_gen::gen_font_with(&mut rng, size, &gopts),
         };
         write_file(&dir.join("font.json"), &pretty(&font_json));
         let (ic, iw, q) = (rng.below(2), rng.below(9), rng.below(2));
         let default_opts = rng.below(3) == 0;
         let (ic2, iw2, q2) = (rng.below(2), rng.below(9), rng.below(2));
+        // --options / --options2 JSON: fixed write options (replay)
+        let fixed = |name: &str| -> Option<(bool, u64, u64, u64)> {
+            opt(a, name).and_then(|t| serde_json::from_str::<J>(t).ok()).map(|j| {
+                (
+                    j["default"].as_bool().unwrap_or(false),
+                    if j["indent_char"].as_str() == Some("space") { 1 } else { 0 },
+                    j["indent_width"].as_u64().unwrap_or(1),
+                    if j["single_quote"].as_bool().unwrap_or(false) { 1 } else { 0 },
+                )
+            })
+        };
+        let (default_opts, ic, iw, q) = fixed("--options").unwrap_or((default_opts, ic, iw, q));
+        let (default2, ic2, iw2, q2) = fixed("--options2").unwrap_or((false, ic2, iw2, q2));
         let mk = |dflt: bool, ic: u64, iw: u64, q: u64| -> (WriteOptions, J) {
             let mut wo = WriteOptions::default();
             if !dflt {
@@ -165,7 +186,7 @@ pub fn main(a: &Args) {
                 let (wo, oj) = mk(default_opts, ic, iw, q);
                 write_file(&dir.join("options.json"), &pretty(&oj));
                 if two_opts {
-                    let (wo2, oj2) = mk(false, ic2, iw2, q2);
+                    let (wo2, oj2) = mk(default2, ic2, iw2, q2);
                     write_file(&dir.join("options2.json"), &pretty(&oj2));
                     let ufo2 = dir.join("n2.ufo");
                     match catch(|| font.save_with_options(&ufo2, &wo2)) {
